@@ -319,7 +319,7 @@ fn check_path(x: &X, db0: &Db, pidx: &[usize], token: Pubkey, amount: u64, tampe
 pub fn run(cli: &Cli) -> Report {
     let mut rep = Report::new(cli, "exploration");
     rep.rule("E1 over swap paths: every sequence of 0..=3 markets out of five (A|A/B, B|A/B, C|B/C, C|A/C, B|B/A; so paths with duplicates, non-chaining paths and paths through the deposit market itself all occur) x initial token in {A,B,C} x amounts, as the long-side swap path of a real create_deposit + execute_deposit into the first market: creation must accept exactly the duplicate-free paths that chain from the initial token into the market's long token; after a completed execution recorded balances and vault balances move together, markets outside the path are untouched, and each declared hop moved exactly the amounts the (C40-validated) SDK swap computes, in order; stored paths tampered to contain a duplicate (adjacent: [p,p,..]; revisiting: [p,q,p] over one token pair, where every hop chains) must not execute; non-trivial = the deposit was created");
-    rep.assume("svm-lite runtime trusted; paths of length 4..10 and swap orders use the same SwapMarkets code and are not enumerated. Second section: real create/execute withdrawal from the first market with every pair of (long-side path, short-side path) of length 0..=2 over the four other markets: creation accepts exactly the pairs whose paths chain without a repeated market; after completion the recorded balances of every market moved exactly as the withdrawal followed by the two declared paths implies (SDK model threaded through both sides in order), and the escrow received the reference amounts");
+    rep.assume("svm-lite runtime trusted; paths of length 4..10 and swap orders use the same SwapMarkets code and are not enumerated. Second section: real create/execute withdrawal from the first market with every pair of (long-side path, short-side path) of length 0..=2 over the four other markets: creation accepts exactly the pairs whose paths chain without a repeated market; after completion the recorded balances of every market moved exactly as the withdrawal followed by the two declared paths implies (SDK model threaded through both sides in order), and the escrow received the reference amounts. Third section: the SwapActionParams accessors (paths, first/last market of each side, duplicate validation, unique markets) over every (primary, secondary) length pair within the total limit x three fillings against the declared slices");
     let (db, x) = build();
     if let Some(rv) = &cli.replay {
         let pidx: Vec<usize> = rv["path"].as_array().map(|a| a.iter().map(|v| v.as_u64().unwrap_or(0) as usize).collect()).unwrap_or_default();
@@ -368,6 +368,7 @@ pub fn run(cli: &Cli) -> Report {
         rep.machinery("vacuous exploration: no swap path was executed");
     }
     withdrawals(&mut rep, &x, &db, th);
+    accessors(&mut rep);
     gmsol_programs::model::clock_verif::set_now(None);
     rep
 }
@@ -557,4 +558,50 @@ fn withdrawals(rep: &mut Report, x: &X, db0: &Db, th: bool) {
     if counters.get("withdrawals_executed").copied().unwrap_or(0) == 0 && rep.violations_total() == 0 {
         rep.machinery("vacuous exploration: no withdrawal with swap paths was executed");
     }
+}
+
+// ------------------------------------------------------------------ the path accessors every action relies on
+
+/// E1: SwapActionParams with every (primary length, secondary length) up to the total limit over a small market alphabet:
+/// the accessors describe exactly the declared paths
+fn accessors(rep: &mut Report) {
+    use gmsol_utils::swap::SwapActionParams;
+    let toks: Vec<Pubkey> = (0..4).map(|i| crate::svm::addr(&format!("c44-mt-{i}"))).collect();
+    let lens: Vec<(usize, usize)> = (0..=SwapActionParams::MAX_TOTAL_LENGTH).flat_map(|p| (0..=SwapActionParams::MAX_TOTAL_LENGTH - p).map(move |s| (p, s))).collect();
+    e1::run(rep, "swap path accessors", &lens, |&(pl, sl), sink| {
+        // three fillings: all distinct-ish (cycling), all the same, first == last
+        for fill in 0..3usize {
+            let mut sp = SwapActionParams::default();
+            sp.primary_length = pl as u8;
+            sp.secondary_length = sl as u8;
+            sp.current_market_token = toks[3];
+            let mut all = vec![];
+            for i in 0..pl + sl {
+                let t = match fill { 0 => toks[i % 3], 1 => toks[0], _ => if i == 0 || i + 1 == pl + sl { toks[1] } else { toks[2] } };
+                sp.paths[i] = t;
+                all.push(t);
+            }
+            let (p, s) = (&all[..pl], &all[pl..]);
+            sink.case(pl + sl > 0);
+            let rp = || json!({"section": "accessors", "primary": pl, "secondary": sl, "fill": fill});
+            let mut bad = vec![];
+            if sp.primary_swap_path() != p { bad.push("primary_swap_path"); }
+            if sp.secondary_swap_path() != s { bad.push("secondary_swap_path"); }
+            if sp.first_market_token(true) != p.first() { bad.push("first_market_token(primary)"); }
+            if sp.first_market_token(false) != s.first() { bad.push("first_market_token(secondary)"); }
+            if sp.last_market_token(true) != p.last() { bad.push("last_market_token(primary)"); }
+            if sp.last_market_token(false) != s.last() { bad.push("last_market_token(secondary)"); }
+            let dup = |x: &[Pubkey]| (0..x.len()).any(|i| x[..i].contains(&x[i]));
+            if sp.validated_primary_swap_path().is_ok() == dup(p) { bad.push("validated_primary_swap_path"); }
+            if sp.validated_secondary_swap_path().is_ok() == dup(s) { bad.push("validated_secondary_swap_path"); }
+            let mut uniq: Vec<Pubkey> = vec![];
+            for t in &all {
+                if *t != toks[3] && !uniq.contains(t) { uniq.push(*t); }
+            }
+            if sp.unique_market_tokens_excluding_current(&toks[3]).copied().collect::<Vec<_>>() != uniq { bad.push("unique_market_tokens_excluding_current"); }
+            for b in bad {
+                sink.fail("C44/path_accessor_differs_from_declared_path", format!("{b}: primary length {pl}, secondary length {sl}, filling {fill}"), rp());
+            }
+        }
+    });
 }
